@@ -205,6 +205,9 @@ func (c *Collector) ViolationFor(prop, signature, message string, witness any) s
 		b, err := json.MarshalIndent(map[string]any{
 			"property": prop, "checked_by": c.res.Property, "signature": signature, "message": message,
 			"verif_seed": c.cfg.Seed, "tier": c.cfg.Tier, "witness": witness,
+			// a generated history depends on the generator's code: a replay reproduces
+			// the case only with the harness revision that wrote the witness
+			"harness_rev": os.Getenv("VERIF_HARNESS_REV"),
 		}, "", " ")
 		if err != nil {
 			b = []byte(fmt.Sprintf(`{"property":%q,"signature":%q,"message":%q,"marshal_error":%q}`, c.res.Property, signature, message, err.Error()))
